@@ -140,10 +140,18 @@ def _lists(h, s, na, nb, names=V2, vf=False):
     return s.termlist(ta), s.termlist(tb)
 
 
-def _vf_false(s, tl):
-    """is a constraint without variables of this list violated (0 <= c with c < 0)?"""
-    fs = [s.const(t) < 0 for t in tl.attrs["terms"].items if not s.coefs(t)]
+def _vf_false(s, tl, beyond=False):
+    """is a constraint without variables of this list violated (0 <= c with c < 0)?  beyond=True: by more than the
+    property's tolerance 1e-4 (1 + |c|).  The code may call such a constraint violated only if it is (exactly), and has to
+    if it is beyond the tolerance; in between (what cancelling floating-point coefficients leave: 0 <= -1.1e-16) either
+    answer is within the property's numerical reading."""
+    cs = [s.const(t) for t in tl.attrs["terms"].items if not s.coefs(t)]
+    fs = [(c < -z3.RealVal("1/10000") * (1 - c)) if beyond else (c < 0) for c in cs]
     return z3.Or(*fs) if fs else z3.BoolVal(False)
+
+
+def _with_vars(s, tl):
+    return [t for t in tl.attrs["terms"].items if s.coefs(t)]
 
 
 def _vec(s, order):
@@ -570,21 +578,25 @@ def _refines_vf(na, nb, k=1):
         empt = [x for x in st.log if x["op"] == "is_empty"]
         p = {n: s.pval(n) for n in V2}
         fa, fb = _vf_false(s, A), _vf_false(s, B)
-        # exact semantics at the skolem point, whatever route was taken
+        fa_far, fb_far = _vf_false(s, A, beyond=True), _vf_false(s, B, beyond=True)
+        # semantics at the skolem point, whatever route was taken
         if cont and st.orders:
             x = _vec(s, st.orders[-1])
             h.cover("containment_test")
-            # (whether the constant constraints are set aside before or kept as zero rows is the code's business: the
-            # matrices handed to the containment test have to MEAN the two lists)
-            h.ensure("C03.list_refines_vf.left_matrix_means_left_list", cont[0]["L"](x) == s.sat(A))
-            h.ensure("C03.list_refines_vf.right_matrix_means_right_list", cont[0]["R"](x) == s.sat(B))
+            # the constant constraints are not violated beyond the tolerance (else the answer is decided by them), and the
+            # matrices handed to the containment test MEAN the constraints that mention a variable
+            h.ensure("C03.list_refines_vf.containment_test_only_if_no_constant_constraint_fails", z3.Not(z3.Or(fa_far, fb_far)))
+            h.ensure("C03.list_refines_vf.left_matrix_means_left_list", z3.Implies(z3.Not(fa), cont[0]["L"](x) == s.sat(A)))
+            h.ensure("C03.list_refines_vf.left_matrix_means_left_list_but_for_a_residue", cont[0]["L"](x) == s.sat(_with_vars(s, A)))
+            h.ensure("C03.list_refines_vf.right_matrix_means_right_list", z3.Implies(z3.Not(fb), cont[0]["R"](x) == s.sat(B)))
+            h.ensure("C03.list_refines_vf.right_matrix_means_right_list_but_for_a_residue", cont[0]["R"](x) == s.sat(_with_vars(s, B)))
             h.ensure("C03.list_refines_vf.result_is_test", _bool(r) == cont[0]["result"])
         else:
             h.cover("decided_without_containment_test")
             # an unsatisfiable left side refines everything; against an unsatisfiable right side only an empty left side does;
             # a right side that only has constant constraints which hold is no constraint at all
-            h.ensure("C03.list_refines_vf.true_without_test_only_if_trivially_so", z3.Implies(_bool(r), z3.Or(fa, z3.And(fb, z3.Or(*[_bool(e["result"]) for e in empt]) if empt else z3.BoolVal(False)), z3.And(z3.Not(fb), z3.BoolVal(nb == 0)))))
-            h.ensure("C03.list_refines_vf.false_without_test_only_if_right_side_constrains", z3.Implies(z3.Not(_bool(r)), z3.And(z3.Not(fa), z3.Or(fb, z3.BoolVal(nb > 0)))))
+            h.ensure("C03.list_refines_vf.true_without_test_only_if_trivially_so", z3.Implies(_bool(r), z3.Or(fa, z3.And(fb, z3.Or(*[_bool(e["result"]) for e in empt]) if empt else z3.BoolVal(False)), z3.And(z3.Not(fb_far), z3.BoolVal(nb == 0)))))
+            h.ensure("C03.list_refines_vf.false_without_test_only_if_right_side_constrains", z3.Implies(z3.Not(_bool(r)), z3.And(z3.Not(fa_far), z3.Or(fb, z3.BoolVal(nb > 0)))))
         h.frame_ok(out, "C13.frame")
 
     return c
@@ -612,14 +624,18 @@ def _is_empty_vf(n, k=1):
         if out.kind != "return":
             return
         tests = [x for x in st.log if x["op"] == "is_empty"]
-        fa = _vf_false(s, A)
+        fa, fa_far = _vf_false(s, A), _vf_false(s, A, beyond=True)
         if tests and st.orders:
             x = _vec(s, st.orders[-1])
-            h.ensure("C11.is_empty_vf.matrix_means_list", tests[0]["set"](x) == s.sat(A))
+            h.ensure("C11.is_empty_vf.test_only_if_no_constant_constraint_fails", z3.Not(fa_far))
+            h.ensure("C11.is_empty_vf.matrix_means_list", z3.Implies(z3.Not(fa), tests[0]["set"](x) == s.sat(A)))
+            h.ensure("C11.is_empty_vf.matrix_means_list_but_for_a_residue", tests[0]["set"](x) == s.sat(_with_vars(s, A)))
             h.ensure("C11.is_empty_vf.result_is_test", _bool(out.value) == _bool(tests[0]["result"]))
         else:
-            # no LP: the list is empty iff its constant constraint fails (0 <= c with c < 0); with no other term it is the whole space
-            h.ensure("C11.is_empty_vf.without_test_empty_iff_constant_constraint_fails", _bool(out.value) == fa)
+            # no LP: empty only if a constant constraint fails (0 <= c with c < 0), and certainly if one fails beyond the
+            # tolerance; with no other term the list is the whole space
+            h.ensure("C11.is_empty_vf.without_test_empty_only_if_a_constant_constraint_fails", z3.Implies(_bool(out.value), fa))
+            h.ensure("C11.is_empty_vf.without_test_empty_if_a_constant_constraint_fails_beyond_tolerance", z3.Implies(fa_far, _bool(out.value)))
         h.frame_ok(out, "C13.frame")
 
     return c
@@ -679,8 +695,8 @@ def _split_vf(n):
         want = [t for t in ts if s.coefs(t)]
         got = kept.attrs["terms"].items
         h.check("C07.split_variable_free.keeps_exactly_the_terms_with_variables_in_order", len(got) == len(want) and all(a is b or s.snapshot(a) == s.snapshot(b) for a, b in zip(got, want)), "%d kept of %d with variables" % (len(got), len(want)))
-        fails = [s.const(t) < 0 for t in ts if not s.coefs(t)]
-        h.ensure("C07.split_variable_free.flag_iff_some_constant_constraint_fails", _bool(flag) == (z3.Or(*fails) if fails else z3.BoolVal(False)))
+        h.ensure("C07.split_variable_free.flag_only_if_some_constant_constraint_fails", z3.Implies(_bool(flag), _vf_false(s, A)))
+        h.ensure("C07.split_variable_free.flag_if_some_constant_constraint_fails_beyond_tolerance", z3.Implies(_vf_false(s, A, beyond=True), _bool(flag)))
         h.check("C13.operands_unchanged", all(s.unchanged(t, sn) for t, sn in zip(ts, snaps)) and A.attrs["terms"].items == ts, "self modified")
         h.frame_ok(out, "C13.frame")
 
